@@ -815,9 +815,20 @@ func (p *Prog) traceRun(st *packetState, entry *ssa.Function, entryArgs []sv, an
 	var writes []sv
 	ctx := p.newSym(p.globalInput())
 	if anyBuffer {
-		ctx.writeFails = p.cache["writefails"] != nil
+		if wf, ok := p.cache["writefails"].(int64); ok && wf > 0 {
+			ctx.writeFails = true
+			ctx.writeTakes = wf - 1
+		}
 		ctx.writeHook = func(c *symCtx, data sv) bool {
 			writes = append(writes, data)
+			// what the buffer holds when it is handed over (the determined bytes among its first 4096)
+			snap := map[int64]sv{}
+			for k := int64(0); k < data.i && k < 4096; k++ {
+				if cell, ok := c.mem[fmt.Sprintf("%s[%d]", data.addr, data.off+k)]; ok {
+					snap[k] = cell
+				}
+			}
+			p.cache["writesnap"] = snap
 			return true
 		}
 	}
@@ -908,6 +919,9 @@ func (p *Prog) traceRun(st *packetState, entry *ssa.Function, entryArgs []sv, an
 	rs, ok := ctx.evalPure(entry, entryArgs, nil, 0)
 	if !ok {
 		return nil, nil, nil, nil, ctx.why
+	}
+	if anyBuffer {
+		p.cache["tracemem"] = ctx.mem
 	}
 	return evs, bufs, rs, writes, ""
 }
